@@ -37,7 +37,7 @@ ASSUMPTIONS = [
     "plane distance of map-frame pairs is taken from the stored matching value (validated by C06/C07), all other scores are recomputed",
     "a matching score within 1e-6 of its threshold makes the whole Ap event unjudged (counted)",
 ]
-DECIDING = ["Ap.events_judged", "Ap.range_checked", "Ap.class_one", "Ap.class_zero", "Map.checked", "Map.aph_le_ap_checked", "C04.exhaustive_rankings"]
+DECIDING = ["Ap.events_judged", "Ap.range_checked", "Ap.class_one", "Ap.class_zero", "Map.checked", "Map.aph_le_ap_checked", "C04.exhaustive_rankings", "frame_metrics.metrics_recomputed", "scene_metrics.metrics_recomputed"]
 JOBS = {"quick": 4, "thorough": 14}
 
 CAR = AutowareLabel.CAR
@@ -155,7 +155,13 @@ def run(ctx: Ctx) -> None:
             exhaustive(ctx, 7, KINDS_Q, [MatchingMode.CENTERDISTANCE])
             exhaustive(ctx, 5, KINDS_Q, [MatchingMode.PLANEDISTANCE, MatchingMode.IOU2D, MatchingMode.IOU3D])
         random_rankings(ctx, 300 if ctx.quick else 20000)
-        run_manager_scenarios(ctx, "scenario", 60 if ctx.quick else 3000)
+        def recompute(run, scene):
+            labels = list(run.manager.target_labels)
+            for k, fr in enumerate(run.results):
+                apmodel.judge_detection_against_frames(ctx, fr.metrics_score, [fr], labels, "C04/frame_score_not_score_of_the_frames_own_results", "frame_metrics", dict(frame=k, task=run.scn.task, frame_id=run.frame_id))
+            apmodel.judge_detection_against_frames(ctx, scene, run.results, labels, "C04/scene_score_not_score_of_pooled_results", "scene_metrics", dict(task=run.scn.task, frame_id=run.frame_id))
+
+        run_manager_scenarios(ctx, "scenario", 60 if ctx.quick else 3000, after=recompute)
         run_direct_frames(ctx, "direct_frames", 100 if ctx.quick else 6000)
         run_direct_frames_2d(ctx, "direct_frames_2d", 60 if ctx.quick else 3000)
         ctx.notes["taps"] = taps.installed
